@@ -16,6 +16,8 @@ var PureSources = []string{
 	"T | where",
 	"T | summarize n = count() by tolower(a) | top 1 by n",
 	"T | join kind=leftouter (U | where not(isnull(b))) on a, $left.b == $right.b | count",
+	"T | where a == 'C:\\tmp\\'",
+	"T | where b == 'it\\'s' and p > 1",
 }
 
 func compileRes(opts *pql.CompileOptions, src string) string {
@@ -56,8 +58,9 @@ func sameMap(a, b map[string]string) bool {
 // nothing depends on map iteration order.
 func H_C14seq(i, j int) {
 	si, sj := PureSources[i], PureSources[j]
-	params := map[string]string{"p": "$1", "zz": "?", "b": "{b:String}"}
-	before := map[string]string{"p": "$1", "zz": "?", "b": "{b:String}"}
+	// (names that differ only in surrounding white space are different names: nothing may conflate them)
+	params := map[string]string{"p": "$1", "b": "{b:String}", "p ": "$7", " p": "$8"}
+	before := map[string]string{"p": "$1", "b": "{b:String}", "p ": "$7", " p": "$8"}
 	opts := &pql.CompileOptions{Parameters: params}
 	r1 := compileRes(opts, si)
 	r2 := compileRes(opts, sj)
@@ -75,7 +78,8 @@ func H_C14seq(i, j int) {
 	verif.PermuteMaps()
 	r5 := compileRes(opts, si)
 	verif.Assert(r5 == r1, "the result depends on map iteration order")
-	verif.Assert(sameMap(params, before), "Compile modified the caller's parameter map")
+	// (compared entry by entry: ranging over the map here would multiply the permutations explored)
+	verif.Assert(len(params) == 4 && params["p"] == "$1" && params["b"] == "{b:String}" && params["p "] == "$7" && params[" p"] == "$8", "Compile modified the caller's parameter map")
 	verif.Cover("history-checked")
 }
 
